@@ -49,6 +49,9 @@ def structures(tier):
         sts.append({'name': n, 'lookups': 0})
         if tier == 'thorough':
             sts.append({'name': n, 'lookups': 1, 'len': 5})
+    # a call that stays open while the thread logs thousands of unrelated records (disk I/O inside a long read)
+    for n, k in ([('BSC_read', 6000)] if tier == 'quick' else [('BSC_read', 6000), ('BSC_read', 70000), ('BSC_open', 20000), ('BSC_getpid', 20000)]):
+        sts.append({'name': n, 'kind': 'long-window', 'nested': k})
     return sts
 
 
@@ -119,9 +122,29 @@ def run_history(ctx, st):
     ctx.reach()
 
 
+def run_long_window(ctx, st):
+    """the result comes from the END record however many unrelated records the thread logged inside the window"""
+    name = st['name']
+    a = [ctx.int('a%d' % i) for i in range(4)]
+    r = [ctx.int('r%d' % i) for i in range(4)]
+    o1 = sweep.run_window(ctx, name, a, r)
+    if o1.kind != 'text':
+        ctx.reach('outcome:' + o1.kind); ctx.reach(); return
+    o2 = sweep.run_window(ctx, name, a, r, nested=st['nested'])
+    L = 'C10/%s' % name
+    if o2.kind != 'text':
+        ctx.check(L + '/long-window', False, 'with %d nested records: %s' % (st['nested'], o2.kind))
+    else:
+        same = sweep.pieces_equal(o1.pieces, o2.pieces) if ctx.symbolic else o1.text == o2.text
+        ctx.check(L + '/long-window', same, 'the line differs when %d unrelated records lie inside the window' % st['nested'])
+    ctx.reach()
+
+
 def run(ctx, st):
     if st.get('kind') == 'history':
         return run_history(ctx, st)
+    if st.get('kind') == 'long-window':
+        return run_long_window(ctx, st)
     name = st['name']
     a = [ctx.int('a%d' % i) for i in range(4)]
     b = [ctx.int('b%d' % i) for i in range(4)]
